@@ -5,7 +5,7 @@
    Spec: Spec/TxCheckSpec.v (`defect` = the disjunction of the seven defects the property lists).
    `ids` = identity tags of the objects in txs_in (Model/TxCheck.v explains why); ids_consistent = equal
    tag implies equal field values, true of any real list of objects. *)
-From PV Require Import Base.Bytes Base.Outcome Gen.GenTxConsts Model.TxWire Model.TxCheck
+From PV Require Import Base.Bytes Base.Outcome Gen.GenTxConsts Model.TxWire Model.TxCheck Model.TxObject Proofs.TxObjectP
   Spec.TxWireSpec Spec.TxCheckSpec Proofs.TxWireP Proofs.TxCheckP.
 Local Open Scope Z_scope.
 
@@ -76,6 +76,33 @@ Theorem C20_constants_and_frame : check_table_facts.
 Proof. exact check_facts. Qed.
 Print Assumptions C20_constants_and_frame.
 
+(* ---- histories of one Tx object (Model/TxObject.v): check, mutate (grow or trim a script, append or pop outputs
+   and inputs, change values ...), check again: the verdict is about the transaction as it is NOW *)
+Theorem C20_history_rejects : forall (H : bytes -> bytes) (max_money max_tx_size : Z) (ops : list op) (ob : txobj),
+  defect max_money (ob_tx (state_after ops ob)) ->
+  last (run H (ops ++ [Obs (OCheck max_money max_tx_size)]) ob) (Raise E_OTHER) = Raise E_VALIDATION.
+Proof. exact history_check_rejects. Qed.
+Print Assumptions C20_history_rejects.
+
+Theorem C20_history_accepts : forall (H : bytes -> bytes) (max_money max_tx_size : Z) (ops : list op) (ob : txobj) (b : bytes),
+  let t := ob_tx (state_after ops ob) in
+  ~ defect max_money t -> stream_tx false true t = Ret b -> Z.of_nat (length b) <= max_tx_size ->
+  last (run H (ops ++ [Obs (OCheck max_money max_tx_size)]) ob) (Raise E_OTHER) = Ret RNone.
+Proof. exact history_check_accepts. Qed.
+Print Assumptions C20_history_accepts.
+
+(* earlier checks (or any other observation) in the history do not matter *)
+Theorem C20_history_independent : forall (H : bytes -> bytes) (ops1 ops2 : list op) (o : obs) (ob : txobj),
+  filter is_mut ops1 = filter is_mut ops2 ->
+  last (run H (ops1 ++ [Obs o]) ob) (Raise E_OTHER) = last (run H (ops2 ++ [Obs o]) ob) (Raise E_OTHER).
+Proof. exact history_independent. Qed.
+Print Assumptions C20_history_independent.
+
+(* tie: the generated scan finds no store into self / module state / caching decorator in any observer method *)
+Theorem C20_observers_are_stateless : object_table_facts.
+Proof. exact object_facts. Qed.
+Print Assumptions C20_observers_are_stateless.
+
 (* non-vacuity: a coinbase with a 2-byte script paying exactly MAX_MONEY is accepted, 1 satoshi more is rejected *)
 Definition ex_cb (v : Z) : tx := mk_tx 1 [mk_txin (repeat x00 32) 4294967295 [x51; x51] 0 []] [mk_txout v []] 0.
 Example C20_example :
@@ -83,3 +110,12 @@ Example C20_example :
   check_coin coin_BTC [0%N] (ex_cb 2100000000000001) = Raise E_VALIDATION /\
   check_coin coin_GRS [0%N] (ex_cb 2100000000000001) = Ret tt.
 Proof. vm_compute. repeat split. Qed.
+
+(* a history in the family of the size-memoisation defect, with MAX_TX_SIZE = 69: accepted at 61 bytes, the input
+   script grown by 9 bytes (70 bytes): rejected; trimmed back: accepted again *)
+Example C20_example_history :
+  let ob := mk_obj (mk_tx 1 [mk_txin (repeatb x11 32) 0 [] 0 []] [mk_txout 5 [x51]] 0) [] in
+  run (fun b => b) [Obs (OCheck 100 69); Mut (MAssignInScript 0 (repeatb x00 9)); Obs (OCheck 100 69);
+                    Mut (MAssignInScript 0 []); Obs (OCheck 100 69)] ob
+  = [Ret RNone; Ret RNone; Raise E_VALIDATION; Ret RNone; Ret RNone].
+Proof. vm_compute. reflexivity. Qed.
